@@ -592,7 +592,11 @@ func (r *run) exec() {
 		return
 	}
 	r.res.NonTrivial = nontrivial
-	r.compare("ExtractXML", data, r.d, want, r.keepTags)
+	entry := "ExtractXML"
+	if r.pbf {
+		entry = "ExtractPBF"
+	}
+	r.compare(entry, data, r.d, want, r.keepTags)
 	if r.res.Viol != nil {
 		return
 	}
